@@ -794,8 +794,8 @@ def worker_main():
     n_shapes = len(systematic_shapes())
     per_shape = 6 if thorough else 3
     n_sys = n_shapes * per_shape
-    n_rnd = 150_000 if thorough else 8_000
-    n_tb = 3_000 if thorough else 200
+    n_rnd = 100_000 if thorough else 6_000
+    n_tb = 2_000 if thorough else 160
     nproc = min(16, os.cpu_count() or 1)
     jobs = []
 
